@@ -27,6 +27,7 @@ import time
 import traceback
 
 VERIF = os.path.dirname(os.path.dirname(os.path.abspath(__file__)))
+OUT = os.environ.get('VERIF_OUT', VERIF)   # evidence/ and replays/ go here (redirected only by the mutant self-test)
 REPO = os.path.abspath(os.environ.get('VERIF_REPO', '/repo'))
 GUARD = 'PYBC_VERIF'
 NPROC = int(os.environ.get('VERIF_JOBS', '16'))
@@ -222,8 +223,18 @@ class Ctx:
             if chunksize is None:
                 chunksize = max(1, min(64, n // (NPROC * 8)))
             it = pool.imap_unordered(_run_cell, jobs, chunksize)
+        n_err = 0
         for _, idx, res in it:
             out[idx] = res
+            if res.get('harness_error') or (res.get('timeout') and not getattr(self.mod, 'TIMEOUT_IS_VIOLATION', False)):
+                n_err += 1
+                if n_err >= 4:
+                    # a broken harness / runaway tree: do not grind through every remaining cell at one watchdog period each
+                    close_pool()
+                    for i, r in enumerate(out):
+                        if r is not None:
+                            self.absorb(part, cells[i], r)
+                    raise HarnessError(f'part {part}: {n_err} cases could not be evaluated (first: {str(res.get("harness_error") or "watchdog timeout")[:300]}); aborting, no verdict')
         for i, res in enumerate(out):
             self.absorb(part, cells[i], res)
             if i in sample_idx:
@@ -234,13 +245,18 @@ class Ctx:
     # ---- results ---------------------------------------------------------------------------------------
     def finish(self, bind_info):
         wall = time.time() - self.t0
-        os.makedirs(os.path.join(VERIF, 'evidence'), exist_ok=True)
-        os.makedirs(os.path.join(VERIF, 'replays'), exist_ok=True)
+        os.makedirs(os.path.join(OUT, 'evidence'), exist_ok=True)
+        os.makedirs(os.path.join(OUT, 'replays'), exist_ok=True)
         if self.harness_errors:
             for part, cell, txt in self.harness_errors[:5]:
                 print(f'ERROR harness: property={self.pid} part={part} cell={json.dumps(cell, default=str)[:300]}\n{txt}')
-            print(f'ERROR harness: {len(self.harness_errors)} case(s) could not be evaluated; no verdict')
-            return 2
+            if not self.viol:
+                print(f'ERROR harness: {len(self.harness_errors)} case(s) could not be evaluated; no verdict')
+                return 2
+            # concrete, replayable violations found in OTHER cases stand on their own; the unevaluated cases are reported, not judged
+            print(f'ERROR harness: {len(self.harness_errors)} case(s) could not be evaluated (not judged); violations below come from cases that were evaluated')
+            self.exhaustive = False
+            self.caps.append(f'{len(self.harness_errors)} cases not evaluated (harness error / watchdog)')
         replay_paths = []
         seen_sig = set()
         per_part = {}
@@ -256,7 +272,7 @@ class Ctx:
             seen_sig.add(h)
             per_part[part] = per_part.get(part, 0) + 1
             if per_part[part] <= 8:
-                path = os.path.join(VERIF, 'replays', f'{self.pid}-{h}.json')
+                path = os.path.join(OUT, 'replays', f'{self.pid}-{h}.json')
                 with open(path, 'w') as fh:
                     fh.write(blob)
                 replay_paths.append((path, part, v))
@@ -290,7 +306,7 @@ class Ctx:
         ev = {'property_id': self.pid, 'tier': self.tier, 'seed': self.seed, 'level': self.mod.LEVEL,
               'coverage': coverage, 'assumptions': list(self.mod.ASSUMPTIONS), 'wall_s': round(wall, 3),
               'violations': len(self.viol)}
-        with open(os.path.join(VERIF, 'evidence', f'{self.pid}.json'), 'w') as fh:
+        with open(os.path.join(OUT, 'evidence', f'{self.pid}.json'), 'w') as fh:
             json.dump(ev, fh, indent=1, default=str)
         print(f'{self.pid} {self.tier}: cells={sum(p["cells"] for p in self.parts.values())} '
               f'evaluations={self.evaluations} nontrivial={len(self.nt)} outcomes={len(self.obs)} '
@@ -371,7 +387,9 @@ def run_check(pid, tier, seed):
     except HarnessError as e:
         print(f'ERROR harness: {e}')
         close_pool()
-        return 2
+        if not ctx.viol:
+            return 2
+        ctx.harness_errors.append(('-', None, str(e)))
     rc = ctx.finish(info)
     close_pool()
     return rc
